@@ -152,7 +152,15 @@ func TestC16L1(t *testing.T) {
 			fail("exported genesis does not validate: %v", err)
 		}
 		j1 := string(e.Enc.Marshaler.MustMarshalJSON(g1))
-		n := importL1(e, g1)
+		// the genesis travels as JSON: what is imported is what can be read back from the exported file
+		var g1read ophosttypes.GenesisState
+		if err := e.Enc.Marshaler.UnmarshalJSON([]byte(j1), &g1read); err != nil {
+			fail("the exported genesis cannot be read back: %v\n%s", err, truncStr(j1, 1500))
+		}
+		if err := ophosttypes.ValidateGenesis(&g1read, e.AK.AddressCodec()); err != nil {
+			fail("the exported genesis, read back from JSON, does not validate: %v", err)
+		}
+		n := importL1(e, &g1read)
 		g2 := n.K.ExportGenesis(n.Ctx)
 		j2 := string(n.Enc.Marshaler.MustMarshalJSON(g2))
 		if j1 != j2 {
